@@ -48,6 +48,8 @@ type Cache struct {
 	DNSAutoAllocate bool
 	// AllowAny indicates if the proxy should allow all outbound traffic or only known registries
 	AllowAny bool
+	// IPMode of the proxy; virtual host domains contain only VIPs of supported families
+	IPMode int
 
 	ListenerPort     int
 	Services         []*model.Service
@@ -138,6 +140,8 @@ func (r *Cache) Key() any {
 	h.WriteString(strconv.FormatBool(r.DNSAutoAllocate))
 	h.Write(Separator)
 	h.WriteString(strconv.FormatBool(r.AllowAny))
+	h.Write(Separator)
+	h.WriteString(strconv.Itoa(r.IPMode))
 	h.Write(Separator)
 
 	for _, svc := range r.Services {
